@@ -764,7 +764,7 @@ def check_C27(res):
 
 def check_C28(res):
     q = res.tier == "quick"
-    trace_stage(res, ["rrl", "burst", res.seed, 40 if q else 3000], "TraceRrl", "rrl/burst", ["C28"], session_start=None)
+    trace_stage(res, ["rrl", "burst", res.seed, 500 if q else 8000], "TraceRrl", "rrl/burst", ["C28"], session_start=None)
     return "bursts of 2-16 OS threads x 1-59 identical requests released by a barrier, with yields in the submitters and a perturbing sink (yield / 50 us sleep while the bucket lock is held); the hook events, ordered by the sequence number taken under the lock, must chain on one bucket (before = previous after), one update per request, and with no refill in between exactly min(n, rate x window) responses are full"
 
 
